@@ -74,7 +74,11 @@ WORLD_PROBE = [{"wc": False, "batch": 2, "steps": [
     {"op": "Put", "a": 3, "c": 0, "ids": [], "crash": 0, "fail": 0},
     {"op": "Mark", "c": 1, "ids": [3], "mk": "def"},
     {"op": "Delete", "a": 0, "c": 1, "ids": [1], "crash": 0, "fail": 0},
-    {"op": "Put", "a": 3, "c": 0, "ids": [], "crash": 0, "fail": 0}]}]
+    {"op": "Put", "a": 3, "c": 0, "ids": [], "crash": 0, "fail": 0}]},
+    {"wc": False, "batch": 2, "steps": [
+    {"op": "SetMode", "m": "RO", "fault": "meta"},
+    {"op": "SetMode", "m": "RW", "fault": "none"},
+    {"op": "Put", "a": 1, "c": 0, "ids": [], "crash": 0, "fail": 0}]}]
 
 
 def detect_world(ck, binp):
@@ -84,7 +88,13 @@ def detect_world(ck, binp):
     the target's garbage key is back iff the tree re-indexes."""
     tp, info = run_scripts(ck, binp, WORLD_PROBE, name="worldprobe")
     ev = vkit.read_ndjson(tp)
-    world = {"BugH11": bool(ev[-1]["st"]["g"][0])}
+    inits = [i for i, e in enumerate(ev) if e["ev"] == "Init"]
+    first, second = ev[:inits[1]], ev[inits[1]:]
+    # BugMetaStale: does a failed DB.SetMode leave a nil bolt under a non-degraded mode (Exists panics)?
+    # BugH10: is the blobstor still read-only after the re-issued, successful SetMode(RW) (put rejected)?
+    world = {"BugH11": bool(first[-1]["st"]["g"][0]),
+             "BugMetaStale": second[1]["st"]["x"][0] == "panic",
+             "BugH10": second[-1].get("res") == "ro"}
     ck.setcov("tree_variant", world)
     ck.log("tree variant: %s" % world)
     return world
